@@ -2,6 +2,9 @@
 
 Nothing here reads an isotherm object to decide the property: `raw_loading` / `raw_spreading` work on the arrays the isotherm was built from
 (the float counterpart of `PgVerif.Model.Iast.pointCert`, tied to it through the `pcert` op of Drv/Iast.lean by the harness).
+Branches: `d["ads"]` / `d["des"]` hold the rows of a branch in INCREASING pressure order (what the certificate integrates over); the isotherm
+stores the desorption rows in DECREASING order after the adsorption rows (`stored_rows`), and the Lean certificate on a branch (`pcertb`,
+`pointCertBranch`) starts from those stored rows and does the selection and the reversal itself.
 """
 import math
 
@@ -41,21 +44,40 @@ def point_data(rng, np, hysteresis=False, npts=None):
     d = {"shape": shape, "params": par, "origin": origin, "ads": (ps, ls), "des": None}
     if hysteresis:
         boost = rng.uniform(1.5, 4.0)
-        pd = ps[1:-1] if origin else ps[:-1]
+        pos = ps[1:] if origin else ps
+        r = rng.random()
+        if r < 0.5:
+            pd = pos[:-1]                                   # the pressures of the adsorption points, without the turning point
+            if float(pd[-1]) < 0.25 * float(pos[-1]):       # (irregular spacing, sparse at the top: desorption starts just below the turning point — the
+                pd = np.concatenate([pd, [float(pos[-1]) * rng.uniform(0.5, 0.98)]])          # mixtures of the check stay inside the measured range)
+        else:
+            # its own pressures, below the turning point (regular or irregular spacing, from 4 points)
+            m = rng.randint(4, 30)
+            # (down to the first adsorption pressure or below: below the lowest point of a branch the library's interpolation has no value,
+            #  scipy's ValueError — the mixtures of the check stay inside the measured range of the branch they ask for)
+            top, bot = float(pos[-1]) * rng.uniform(0.5, 0.98), float(pos[0]) * rng.uniform(0.8, 1.0)
+            pd = np.geomspace(bot, top, m) if r < 0.75 else np.array(sorted({bot, top} | {logu(rng, bot, top) for _ in range(m - 2)}))
         ld = np.array([min(f(float(p) * boost), float(ls[-1])) for p in pd])
-        # stored as measured: adsorption upwards, then desorption downwards from below the last adsorption point
+        d["boost"] = boost
+        # `des` holds the desorption rows in INCREASING pressure order; they are STORED as measured (`stored_rows`): adsorption upwards,
+        # then desorption downwards from below the last adsorption point
         d["des"] = (pd, ld)
     return d
 
 
-def build_point(pg, np, d, ads):
+def stored_rows(np, d):
+    """(pressure, loading, branch marks) as stored in the isotherm: the adsorption rows, then the desorption rows in DECREASING pressure order"""
     ps, ls = d["ads"]
     if d["des"] is None:
-        pressure, loading, branch = ps, ls, None
-    else:
-        pd, ld = d["des"]
-        pressure, loading = np.concatenate([ps, pd[::-1]]), np.concatenate([ls, ld[::-1]])
-        branch = [0] * len(ps) + [1] * len(pd)
+        return ps, ls, [0] * len(ps)
+    pd, ld = d["des"]
+    return np.concatenate([ps, pd[::-1]]), np.concatenate([ls, ld[::-1]]), [0] * len(ps) + [1] * len(pd)
+
+
+def build_point(pg, np, d, ads):
+    pressure, loading, branch = stored_rows(np, d)
+    if d["des"] is None:
+        branch = None
     kw = dict(pressure=pressure.copy(), loading=loading.copy(), material="pgv-synth", adsorbate=ads, temperature=300.0, pressure_mode="absolute", pressure_unit="bar",
               loading_basis="molar", loading_unit="mmol", material_basis="mass", material_unit="g", temperature_unit="K")
     if branch is not None:
@@ -110,6 +132,20 @@ def pcert_line(qlist, q, ps, ls, p0):
     k = int(sum(1 for p in gp if p < p0))
     lg = math.log(p0 / gp[k - 1]) if k > 0 else 0.0
     return f"pcert {qlist(ps)} {qlist(ls)} {qlist(logs)} {q(p0)} {q(lg)}"
+
+
+def pcertb_line(np, qlist, q, d, br, p0):
+    """request line of the Lean certificate on a BRANCH (`pcertb`): the rows of the whole isotherm AS STORED, their branch marks and the requested
+    branch; the Lean model selects the rows of the branch, reverses the desorption rows and applies the origin guard (Model/IastPoint.lean
+    `pointCertBranch`).  The logarithm inputs are those of the rows the fold runs over (increasing, guarded)."""
+    gp, gl = guarded(*d[br])
+    if not (gp[0] <= p0 <= gp[-1]):
+        return None
+    logs = [math.log(gp[i + 1] / gp[i]) for i in range(len(gp) - 1)]
+    k = int(sum(1 for p in gp if p < p0))
+    lg = math.log(p0 / gp[k - 1]) if k > 0 else 0.0
+    sp, sl, marks = stored_rows(np, d)
+    return f"pcertb {qlist(sp)} {qlist(sl)} [{';'.join(str(m) for m in marks)}] {0 if br == 'ads' else 1} {qlist(logs)} {q(p0)} {q(lg)}"
 
 
 # ----------------------------------------------------------------------------------------------------------------- query histories
